@@ -51,6 +51,8 @@ def _act(w, it, live_names, x, a):
         it.release(a)
     elif name == "flush":
         it.flush(True)
+    if r is None and gen is not None:
+        w.fail(1005)        # an *unnamed* request was refused: the generated name collided (nothing else can refuse it here)
     if r is not None and gen is not None:
         if not re.match("^%s-%s-group-[0-9]+$" % gen, r["group"]):
             w.fail(1004)
@@ -58,8 +60,15 @@ def _act(w, it, live_names, x, a):
             w.fail(1005)
 
 
-def tpl_groups(size, x1, a1, x2, a2, x3, a3, x4, a4, t, _twin=False):
-    w = World("c10.groups")
+def tpl_names(size, p, k, x1, a1, x2, a2, _twin=False):
+    """History first: p unnamed apply(fa) requests (generated indices 0 .. p-1), the k-th of them cancelled, one more
+    unnamed apply(fa) (which may re-use the freed index); then two symbolic steps.  Generated names must keep following the
+    pattern and never collide with a live group, whatever order the registry is in by now."""
+    return tpl_groups(size, x1, a1, x2, a2, NOP, 0, NOP, 0, 9, _twin, (p, k))
+
+
+def tpl_groups(size, x1, a1, x2, a2, x3, a3, x4, a4, t, _twin=False, pro=None):
+    w = World("c10.names" if pro else "c10.groups")
     code = 0
     try:
         pool = TaskPool(pool_size=size)
@@ -101,6 +110,11 @@ def tpl_groups(size, x1, a1, x2, a2, x3, a3, x4, a4, t, _twin=False):
             except InvalidGroupName:
                 pass
         try:
+            if pro:
+                for _ in range(pro[0]):
+                    _act(w, it, live_names, 0, 0); w.settle()
+                it.cancel_group(pro[1]); w.settle()
+                _act(w, it, live_names, 0, 0); w.settle(); idle()
             for k, (x, a) in enumerate(((x1, a1), (x2, a2), (x3, a3), (x4, a4))):
                 _act(w, it, live_names, x, a)
                 if k == 0:
@@ -178,6 +192,10 @@ def families(tier):
     return [
         Family(name="groups", fn="tpl_groups", params=P, pre=pre, parts=parts,
                twin_pre=["x1 == 1", "x2 == 3", "x3 == 7", "x4 == %d" % NOP], twin_args=[6, 1, 0, 3, 0, 7, 0, NOP, 0, 9]),
+        Family(name="names", fn="tpl_names", params=["size", "p", "k", "x1", "a1", "x2", "a2"],
+               pre=["size >= 6", "2 <= p <= 3", "0 <= k <= 2", "0 <= x1 <= %d" % NOP, "0 <= a1 < 4", "0 <= x2 <= %d" % NOP, "0 <= a2 < 4"] +
+                   ([] if thorough else ["x1 == 0 or x1 == 2 or x1 == 3 or x1 == 7", "x2 == 0 or x2 == 3 or x2 == %d" % NOP, "a1 <= 2", "a2 <= 1"]),
+               parts=parts_product(p=(2, 3), k=(0, 1, 2)), twin_pre=["p == 2", "k == 0", "x1 == 0"], twin_args=[6, 2, 0, 0, 0, 0, 0]),
         Family(name="start", fn="tpl_start", params=["size", "n1", "n2", "n3", "c", "t"],
                pre=["size >= 0", "0 <= n1 <= 2", "0 <= n2 <= 2", "0 <= n3 <= 2", "-1 <= c <= 1", "t >= 0"],
                parts=parts_product(n1=range(3), c=(-1, 0, 1)), twin_pre=["n1 == 2", "c == -1"], twin_args=[3, 2, 1, 0, -1, 9]),
